@@ -1802,6 +1802,12 @@ class SSHConnection(SSHPacketHandler, asyncio.Protocol):
         if self._send_encryption and pkttype > MSG_KEX_LAST:
             self.send_packet(MSG_IGNORE, String(b''))
 
+            # The rekey time may have been reached while sending the
+            # ignore packet, starting a key exchange
+            if not self._kex_complete:
+                self._deferred_packets.append((pkttype, args))
+                return
+
         orig_payload = Byte(pkttype) + b''.join(args)
 
         if self._compressor and (self._auth_complete or
